@@ -2,5 +2,5 @@ From Coq Require Import Extraction ExtrOcamlBasic.
 From MTV Require Import Base.Bytes Prim.Sha1 Prim.Aes256 Crypto.Ige Crypto.IgeMem Crypto.TempKeys.
 Extraction "model.ml" sha1 aes_enc aes_dec of_be
   do_encrypt do_decrypt is_correct_data ige_encrypt ige_decrypt
-  generate_temp_keys encrypt_temp_raw encrypt_temp decrypt_temp pad_need
+  generate_temp_keys encrypt_temp_raw encrypt_temp decrypt_temp trydec_temp pad_need
   generate_aes_ige encrypt_msg decrypt_msg tmp_aes_key tmp_aes_iv fixed_bytes.
